@@ -60,8 +60,21 @@
 (*                  for it, and - being in the message's view - holds every *)
 (*                  preparation and every commit of that view the message   *)
 (*                  carried                                                  *)
-(* Named deviations (constant Bug, and the two switches Relabel /           *)
-(* VerifyOnRequest that describe the pinned code) - TLC must refute each.   *)
+(* Named deviations, each refuted by TLC (MC_Rec_bug_*.cfg):                 *)
+(*   Relabel = TRUE   the decoder labels every rebuilt Commit with the       *)
+(*                    MESSAGE's view: a Commit of view 0 carried by a        *)
+(*                    message of view 1 reaches dBFT as a Commit of view 1   *)
+(*                    (RecoverySound).  This was the node's behaviour until  *)
+(*                    /repo 21f472b; on 7 real services it made a validator  *)
+(*                    assemble a block with a foreign signature (scenario    *)
+(*                    relabel7 of the driver; N = 4 cannot reach that: every *)
+(*                    validator that commits in view 1 has the header).      *)
+(*   Bug = LosesView / DropsResponses / RequesterView / CVIndex /            *)
+(*         WitnessAnyView / Quorum / NoCommitLock   see the constant.        *)
+(* VerifyOnRequest = FALSE is dbft v0.4.0 as pinned (commits stored before   *)
+(* the PrepareRequest are never re-checked against the header): harmless as  *)
+(* long as every stored commit is a faithful copy - which is what            *)
+(* RecoverySound says; all configurations run with FALSE.                    *)
 (***************************************************************************)
 EXTENDS Integers, FiniteSets, TLC
 
